@@ -42,6 +42,8 @@ PROPS = {
     },
     "C05": {
         "lean_modules": ["C05"],
+        "pre_cmds": [GOL],
+        "trusted_extra": [GOL_TRUST],
         "rule": "every shape of rank 0-3 and vector-like rank-4 shapes x constructors x {as built, every transpose, random slices, slices of transposes} x scripts of Next/Reset/SetReverse/SetForward/Coord/Done; offsets, coordinates, exhaustion and the cells read at the offsets are compared",
     },
     "C04": {
@@ -50,6 +52,8 @@ PROPS = {
     },
     "C06": {
         "lean_modules": ["C06"],
+        "pre_cmds": [GOL],
+        "trusted_extra": [GOL_TRUST],
         "rule": "every arithmetic op (add sub mul div mod pow) x 14 numeric element types x {tensor-tensor, tensor-scalar, scalar-tensor} x {package function, method} with rotating shapes (rank 0-4 incl. scalar, (1), (1,1), row/column vectors) and operand layouts {contiguous, lazily transposed, offset slice, stepped slice, materialised}; all 25 layout pairs on every shape; refusals (bool/string operands, mismatched dtypes and shapes); value sets with overflow, negatives, zero divisors (floats), NaN/Inf; model terms are evaluated with Go's own operators and compared bit-exactly with the library's result; every operand is dumped after the call",
     },
     "C07": {
